@@ -6,6 +6,7 @@ import MosnVerif.Lemmas.HpackTable
 import MosnVerif.Lemmas.HpackWire
 import MosnVerif.Lemmas.HpackEmit
 import MosnVerif.Lemmas.H2Limits
+import MosnVerif.Lemmas.HuffWalk
 /-!
 # C18 — HTTP/2 wire compatibility and flow control (property theorems only)
 
@@ -364,22 +365,96 @@ theorem dropped_indexed_desyncs :
 
 end emit
 
-/-! ## Huffman code table (regenerated from tables.go) -/
+/-! ## Huffman coding (`Model/Huffman.lean`, `Model/HuffTree.lean`; code table and every expression of huffman.go regenerated) -/
 section huffman
-open MosnVerif.Model.Huffman
+open MosnVerif.Model.Huffman MosnVerif.Model.HuffTree
+open MosnVerif.Lemmas.HuffCode (codeBits eosBits)
 
 /-- **huffman_prefix_free**: no code of the table is a prefix of the code of another symbol, EOS included — the
 bit-level decoder is unambiguous.  (Checked by the kernel over all 257×257 pairs of the regenerated table.) -/
-theorem huffman_prefix_free : prefixFree codes = true := by decide +kernel
+theorem huffman_prefix_free : prefixFree codes = true := Lemmas.HuffCode.prefix_free
 
 /-- 257 codes of 5..30 bits, each within its length -/
-theorem huffman_table_wf : tableWf codes = true := by decide +kernel
+theorem huffman_table_wf : tableWf codes = true := Lemmas.HuffCode.table_wf
 
 /-- Kraft equality: the code is complete, so every octet string of Huffman payload decodes or ends in a prefix of a
 code (which the decoder then compares with the EOS padding) -/
-theorem huffman_complete : kraftComplete codes = true := by decide +kernel
+theorem huffman_complete : kraftComplete codes = true := Lemmas.HuffCode.kraft_complete
 
-example : encode [119, 119, 119] = [241, 227, 194 + 32 + 31] ∨ True := Or.inr trivial
+/-- **huffman_tree_is_code_table**: the tree `buildRootHuffmanNode` builds — `addDecoderNode` (loop guard, decrement,
+both index expressions, shift and fill range regenerated, uint8 / uint32 wrap-around included) folded over the
+regenerated table, evaluated by the kernel — panics nowhere, and every child slot of every internal node is what the
+table prescribes: a leaf `(sym, r)` sits exactly where the code of `sym` is the node's path followed by the first `r`
+bits of the index; a pointer leads to the internal node of the extended path; the only nil slots are those whose path
+starts with EOS; no code is a prefix of the path of an internal node. -/
+theorem huffman_tree_is_code_table :
+    buildRoot.bad = false ∧ (0, 0, 0) ∈ Lemmas.HuffTreeCheck.nodePaths ∧
+    ∀ n d pv, (n, d, pv) ∈ Lemmas.HuffTreeCheck.nodePaths →
+      pv < 2 ^ (8 * d) ∧ d < 4 ∧ (∀ s, s < 256 → isPrefixCode (codeOf s, lenOf s) (pv, 8 * d) = false) ∧
+      ∀ idx, idx < 256 →
+        Lemmas.HuffTreeCheck.entOk codeOf lenOf Lemmas.HuffTreeCheck.nodePaths d pv idx (huffTree.child n idx) = true :=
+  ⟨Lemmas.HuffTreeCheck.build_ok, Lemmas.HuffTreeCheck.root_mem, Lemmas.HuffTreeCheck.node_ok⟩
+
+/-- **huffman_tree_walker_refines**: `huffmanDecode` (8-bit steps through the built tree, `cur` / `cbits` / `sbits`
+bookkeeping, the trailing loop, the `sbits > 7` and EOS-mask tests, the `maxLen` guard — every expression regenerated)
+returns, for EVERY byte string and every `maxLen`, exactly what the declarative bit-level decoder returns: the same
+string, or the same error (ErrInvalidHuffman / ErrStringLength). -/
+theorem huffman_tree_walker_refines (maxLen : Nat) (v : Bytes) : walk maxLen v = decodeSpecMax maxLen v :=
+  Lemmas.HuffWalk.walk_eq_spec maxLen v
+
+/-- **huffman_roundtrip**: for ALL byte strings `s` (no length bound): the declarative decoder and the tree walker
+return `s` on the encoder's output, under every `maxLen` that admits `s`; one byte more than `maxLen` is ErrStringLength. -/
+theorem huffman_roundtrip (s : Bytes) :
+    decodeSpec (encode s) = some s ∧
+    (∀ maxLen, maxLen = 0 ∨ s.length ≤ maxLen → walk maxLen (encode s) = .ok s) ∧
+    (∀ maxLen, maxLen ≠ 0 → maxLen < s.length → walk maxLen (encode s) = .error .strLen) := by
+  refine ⟨Lemmas.HuffSpec.decodeSpec_encode s, fun maxLen h => ?_, fun maxLen h0 hl => ?_⟩
+  · rw [huffman_tree_walker_refines]; exact Lemmas.HuffSpec.decodeSpecMax_encode maxLen s h
+  · rw [huffman_tree_walker_refines, Lemmas.HuffSpec.decodeSpecMax_eq, Lemmas.HuffSpec.bytesToBits_encode]
+    exact Lemmas.HuffSpec.specRun_encode_too_long maxLen s _ [] h0 (Nat.zero_le _) (by simpa using hl)
+
+/-- **huffman_encoded_len_exact**: the encoder emits exactly `⌈Σ codeLen / 8⌉` bytes, and `HuffmanEncodeLength` (uint64
+arithmetic regenerated) — the length the string literal header announces — is that number. -/
+theorem huffman_encoded_len_exact (s : Bytes) :
+    (encode s).length = encodeLen s ∧ (s.length < 2 ^ 58 → goEncodeLen s = encodeLen s) :=
+  ⟨Lemmas.HuffSpec.length_encode s, Lemmas.HuffWalk.goEncodeLen_eq s⟩
+
+/-- **huffman_decode_iff**: the decoder accepts exactly the encoder's outputs — `v` decodes to `s` iff `v = encode s`. -/
+theorem huffman_decode_iff (v s : Bytes) : walk 0 v = .ok s ↔ v = encode s := by
+  rw [huffman_tree_walker_refines]; exact Lemmas.HuffSpec.decodeSpecMax_ok_iff v s
+
+/-- **huffman_injective**: two different strings never encode to the same bytes -/
+theorem huffman_injective (s₁ s₂ : Bytes) (h : encode s₁ = encode s₂) : s₁ = s₂ := by
+  have h1 := Lemmas.HuffSpec.decodeSpec_encode s₁
+  rw [h, Lemmas.HuffSpec.decodeSpec_encode s₂] at h1
+  exact (Option.some.inj h1).symm
+
+/-- **huffman_padding_rejects** (the three decoding errors RFC 7541 §5.2 / x/net name), for every payload `v` whose bits
+are the codes of any string `s` followed by: (1) 8 or more one-bits — padding longer than 7 bits; (2) trailing bits that
+are no complete code and not all ones — padding that is not a prefix of EOS; (3) the 30 bits of EOS and anything — EOS
+inside the string: `huffmanDecode` returns ErrInvalidHuffman. -/
+theorem huffman_padding_rejects (v s : Bytes) :
+    (∀ k, 8 ≤ k → bytesToBits v = encodeBits s ++ List.replicate k true → walk 0 v = .error .invalid) ∧
+    (∀ p, matchSym p = none → p.all id = false → bytesToBits v = encodeBits s ++ p → walk 0 v = .error .invalid) ∧
+    (∀ rest, bytesToBits v = encodeBits s ++ (eosBits ++ rest) → walk 0 v = .error .invalid) := by
+  refine ⟨fun k hk hb => ?_, fun p hp hz hb => ?_, fun rest hb => ?_⟩
+  · rw [huffman_tree_walker_refines, Lemmas.HuffSpec.decodeSpecMax_eq, hb]
+    exact Lemmas.HuffSpec.reject_long_padding 0 s k hk [] (Or.inl rfl)
+  · rw [huffman_tree_walker_refines, Lemmas.HuffSpec.decodeSpecMax_eq, hb]
+    exact Lemmas.HuffSpec.reject_bad_padding 0 s p hp hz [] (Or.inl rfl)
+  · rw [huffman_tree_walker_refines, Lemmas.HuffSpec.decodeSpecMax_eq, hb]
+    exact Lemmas.HuffSpec.reject_eos 0 s rest [] (Or.inl rfl)
+
+-- non-vacuity: "www" (RFC 7541 C.4.1 fragment), its encoding, and instances of the three rejected shapes
+example : bytesToBits [0xf1, 0xe3, 0xc7] = encodeBits [119, 119, 119] ++ List.replicate 3 true := by decide
+-- (1) `[]` followed by 8 one-bits; "w" followed by 1 + 8 one-bits
+example : bytesToBits [0xff] = encodeBits [] ++ List.replicate 8 true := by decide
+example : bytesToBits [0xf1, 0xff] = encodeBits [119] ++ List.replicate 9 true := by decide
+-- (2) "w" followed by the bit 0: no code, not all ones
+example : bytesToBits [0xf0] = encodeBits [119] ++ [false] := by decide
+-- (3) EOS (30 one-bits) and two more bits
+example : bytesToBits [0xff, 0xff, 0xff, 0xff] = encodeBits [] ++ (eosBits ++ [true, true]) := by decide
+
 end huffman
 
 /-! ## frame header, DATA / HEADERS payload arithmetic -/
